@@ -2,7 +2,7 @@
 import z3
 from common import *
 import _e3
-from mirsmt import sym, models, check, models_str as MS
+from mirsmt import sym, models, check, models_str as MS, models_coll as MC
 from mirsmt.sym import Ptr, Agg, Enum, Native, Fork, UNIT, bv, Opaque
 
 ASSUME = ["strings are modelled at character level with concrete lengths per query (stated per obligation) and fully symbolic characters (any Unicode scalar value); "
@@ -460,11 +460,22 @@ def label_pair_ok(items):
     return MS.run_dfa(items, 0, step, lambda st, cls: z3.IntVal(BAD), BAD) == 5
 
 
+def _clone_map(eng, ctx, v):
+    """clone of an IndexMap, or Option<&IndexMap>::cloned()"""
+    w = v
+    if isinstance(w, Enum) and w.name == "Option":
+        if isinstance(w.discr, int) and w.discr == 0:
+            return w
+        inner = MC.load(eng, ctx, w.v[1].f[0])
+        return Enum(w.discr, {1: Agg({0: MC.deep_copy(ctx, inner)})}, "Option")
+    return MC.deep_copy(ctx, MC.load(eng, ctx, w))
+
+
 def key_parts(e3, thorough):
     """key_to_parts: name and every rendered label are well-formed for every key / global label set of the given shape"""
     P = _e3.program(["metrics-exporter-prometheus", "metrics"])
     b = P.find_fn("key_to_parts")
-    shapes = [(1, 0, 0), (1, 1, 0), (1, 2, 0), (1, 1, 1), (1, 2, 1)] if not thorough else [(2, 0, 0), (2, 1, 0), (1, 2, 0), (2, 1, 1), (1, 2, 1), (1, 2, 2)]
+    shapes = [(1, 0, 0), (1, 0, 1), (1, 1, 0), (1, 2, 0), (1, 1, 1), (1, 2, 1), (1, 0, 2)] if not thorough else [(2, 0, 0), (1, 0, 1), (1, 0, 2), (2, 1, 0), (1, 2, 0), (2, 1, 1), (1, 2, 1), (1, 2, 2), (2, 0, 2)]
     for (nn, nl, ng) in shapes:
         nm, base = fresh_chars("n", nn)
         labels = []
@@ -484,10 +495,12 @@ def key_parts(e3, thorough):
             for j in range(i + 1, ng):
                 base.append(z3.Not(MS.text_eq(glob[i][0].data, glob[j][0].data)))
         key = Native("key", (MS.sstr(nm), tuple(labels)))
-        extra = dict(MS.LIST)
-        extra.update(MS.FMT)
-        extra.update(MS.MAPS)
+        # IndexMap<String, String> by the general keyed-container model (entries in insertion order, symbolic key equality): whatever map
+        # operations the code uses (insert, entry, get, iter, extend ...) are followed
+        extra = dict(MS.FMT)
+        extra.update(MC.COLL)
         extra.update({
+            r"^<(IndexMap|HashMap) as Clone>::clone$|(^|::)Option::cloned$": lambda eng, ctx, f, path, args, dty: _clone_map(eng, ctx, args[0]),
             r"^Key::name$": lambda eng, ctx, f, path, args, dty: MS._load(eng, ctx, args[0]).data[0],
             r"^Key::labels$": lambda eng, ctx, f, path, args, dty: Native("liter", (MS._load(eng, ctx, args[0]).data[1], 0)),
             r"^Label::key$": lambda eng, ctx, f, path, args, dty: MS._load(eng, ctx, args[0]).data[0],
@@ -496,7 +509,8 @@ def key_parts(e3, thorough):
         garg = Enum(1, {1: Agg({0: Ptr(("static", "globals"))})}, "Option") if ng else Enum(0, {}, "Option")
         eng = engine(P, extra)
         ctx0 = sym.Ctx(eng, 1)
-        ctx0.statics = {"buf": MS.sstr(), "globals": MS.lmap(glob), "key": key}
+        ctx0.statics = {"buf": MS.sstr(), "key": key}
+        ctx0.statics["globals"] = MC.kmap(tuple((k, MC.new_cell(ctx0, v, "gl")) for k, v in glob))
 
         def script():
             r = yield ("call", b, [Ptr(("static", "key")), garg])
